@@ -64,18 +64,23 @@ bool RSEquationProcessor::ResolveCstAndPrecheck() const {
 bool RSEquationProcessor::CreatesDependencyLoop() const {
   // Note: pairs are admissible one by one, but together they can still close a loop
   // Dependencies are checked after every removed constituent is identified with its replacement
+  const auto& dependencies = schema.RSLang().Graph();
+  return ClosesLoop([&](const EntityUID uid) { return dependencies.InputsFor(uid); })
+    || ClosesLoop([&](const EntityUID uid) { return TermInputsAfterEquation(uid); });
+}
+
+bool RSEquationProcessor::ClosesLoop(const std::function<SetOfEntities(EntityUID)>& inputsFor) const {
   EntityTranslation images{};
   for (const auto& [key, value] : *equations) {
     images.Insert(key, value);
   }
   graph::CGraph merged{};
-  const auto& dependencies = schema.RSLang().Graph();
   for (const auto uid : schema.Core()) {
     if (equations->ContainsKey(uid)) {
-      continue; // Note: definition of a removed constituent is dropped
+      continue; // Note: definition and term of a removed constituent are dropped
     }
     merged.AddItem(uid);
-    for (const auto input : dependencies.InputsFor(uid)) {
+    for (const auto input : inputsFor(uid)) {
       merged.AddConnection(images.ContainsKey(input) ? images(input) : input, uid);
     }
   }
@@ -87,6 +92,34 @@ bool RSEquationProcessor::CreatesDependencyLoop() const {
     }
   }
   return false;
+}
+
+SetOfEntities RSEquationProcessor::TermInputsAfterEquation(const EntityUID uid) const {
+  // Note: term of a replacement is its own one, the term of the removed constituent or a new one
+  const auto& terms = schema.Texts().TermGraph();
+  SetOfEntities result{};
+  auto keepsOwnTerm = true;
+  for (const auto& [key, value] : *equations) {
+    if (value != uid) {
+      continue;
+    }
+    const auto& props = equations->PropsFor(key);
+    if (props.mode == Equation::Mode::keepDel) {
+      keepsOwnTerm = false;
+      result.merge(terms.InputsFor(key));
+    } else if (props.mode == Equation::Mode::createNew) {
+      keepsOwnTerm = false;
+      for (const auto& name : lang::ManagedText{ props.arg }.Referals()) {
+        if (const auto mentioned = schema.Texts().FindAlias(name); mentioned.has_value()) {
+          result.emplace(mentioned.value());
+        }
+      }
+    }
+  }
+  if (keepsOwnTerm) {
+    result.merge(terms.InputsFor(uid));
+  }
+  return result;
 }
 
 bool RSEquationProcessor::PrecheckFor(const EntityUID key, const EntityUID value) const {
